@@ -19,6 +19,7 @@ RULE = (
     '; pass 5: coinciding sizes (M=1, N=1, M=N, all equal to the batch size); inputs at / near / single-precision copies of the inducing points; training-mode calls under no_grad before and after a parameter update'
     '; pass 6: negative raw scales / negative factor diagonals as valid states; CIQ with 26 well-spread inducing points'
     "; pass 8: the whole svgp cell under trace_mode / with debug off; calls with another broadcast batch shape (all strategies incl. BatchDecoupled) compared with the first call itself"
+    "; pass 9: LMC with latent_dim=-2 (variational batch (Q, B) with B == Q, B != Q, B == 1), all tasks and task_indices, lazy and eager kernels"
 )
 REQUIRED = ["qu_encodes_parameters", "qf_mean", "qf_mean_skipvar", "qf_covar", "qf_train_variance", "kl_closed_form", "qu_equals_prior_gives_prior", "whitened_equals_unwhitened", "lmc_mixing", "indep_mixing", "grid_interp_qf", "bdvs_qf", "orth_decoupled_qf", "orth_decoupled_kl"]
 ASSUMPTIONS = [
@@ -77,6 +78,10 @@ def cases(tier, seed):
         yield {"kind": "grid", "dist": "MeanFieldVariationalDistribution", "dims": 3, "seed": rnd.randrange(10**6)}
         for kind, ti in itertools.product(["lmc", "indep"], [False, True]):
             yield {"kind": kind, "task_indices": ti, "seed": rnd.randrange(10**6)}
+        # LMC with the latent dimension NOT last (documented `latent_dim` option), other batch dimension of equal / other size,
+        # lazy and eager kernel evaluation
+        for (Q_, B_), ti, lazy in itertools.product([(3, 3), (2, 3), (3, 1)], [False, True], [True, False]):
+            yield {"kind": "lmc_latent_dim", "Q": Q_, "B": B_, "task_indices": ti, "lazy": lazy, "seed": rnd.randrange(10**6)}
         for strat, dist in itertools.product(["VariationalStrategy", "UnwhitenedVariationalStrategy"], DISTS[:2] + DISTS[3:]):
             yield {"kind": "identity", "strategy": strat, "dist": dist, "seed": rnd.randrange(10**6)}
         for dist in DISTS[:2]:
@@ -262,7 +267,7 @@ def run_case(case, ctx):
 
 
 def _dispatch(case, ctx, g):
-    return {"svgp": _svgp, "aliasing": _aliasing, "init_from_prior": _init_from_prior, "bdvs": _bdvs, "grid": _grid, "lmc": _multitask, "indep": _multitask, "identity": _identity, "same_qu": _same_qu, "orth": _orth}[case["kind"]](case, ctx, g)
+    return {"svgp": _svgp, "aliasing": _aliasing, "init_from_prior": _init_from_prior, "bdvs": _bdvs, "grid": _grid, "lmc": _multitask, "indep": _multitask, "lmc_latent_dim": _lmc_latent_dim, "identity": _identity, "same_qu": _same_qu, "orth": _orth}[case["kind"]](case, ctx, g)
 
 
 def _qu_unwhitened(case_strat, dist, vs, Kzz, mz, jit):
@@ -829,6 +834,69 @@ def _multitask(case, ctx, g):
             ctx.close(mon, got, C4 + jit * torch.eye(N_ * nt), (1e-7, 1e-7), cls=kind + ":cov", alt=C4)
         kl = m.variational_strategy.kl_divergence()
         ctx.close(mon, kl, base.kl_divergence().sum(), (1e-9, 1e-9), cls=kind + ":kl_is_sum_over_latents")
+    ctx.cell({k: v for k, v in case.items() if k != "seed"})
+
+
+def _lmc_latent_dim(case, ctx, g):
+    """LMCVariationalStrategy(latent_dim=-2): variational batch shape (Q, B); the output for batch element b mixes the latent
+    q(f) of (q, b) over q with the coefficients A[q, b, :]"""
+    import torch
+
+    import gpytorch
+    from gpytorch import settings as S
+    from vf import util
+
+    V = gpytorch.variational
+    Q, B, T = case["Q"], case["B"], 3
+    bs = torch.Size([Q, B])
+    Z = util.randn(g, Q, B, M_, D)
+
+    class Mdl(gpytorch.models.ApproximateGP):
+        def __init__(s):
+            vd = V.CholeskyVariationalDistribution(M_, batch_shape=bs)
+            base = V.VariationalStrategy(s, Z, vd, learn_inducing_locations=True)
+            super().__init__(V.LMCVariationalStrategy(base, num_tasks=T, num_latents=Q, latent_dim=-2))
+            s.mean_module = gpytorch.means.ConstantMean(batch_shape=bs)
+            s.covar_module = gpytorch.kernels.ScaleKernel(gpytorch.kernels.RBFKernel(batch_shape=bs), batch_shape=bs)
+
+        def forward(s, x):
+            return gpytorch.distributions.MultivariateNormal(s.mean_module(x), s.covar_module(x))
+
+    m = Mdl()
+    util.randomize(m, g, 0.4)
+    base = m.variational_strategy.base_variational_strategy
+    _randomize_vd(base._variational_distribution, "CholeskyVariationalDistribution", g)
+    for mod in m.modules():
+        if hasattr(mod, "variational_params_initialized"):
+            mod.variational_params_initialized.fill_(1)
+    X = util.randn(g, N_, D)
+    m.eval()
+    jit = float(m.variational_strategy.jitter_val)
+    with torch.no_grad(), S.lazily_evaluate_kernels(case["lazy"]):
+        with S.lazily_evaluate_kernels(False):
+            lat = base(X)
+            lm, lc = lat.mean.clone(), lat.covariance_matrix.clone()  # Q x B x N (x N)
+        A = m.variational_strategy.lmc_coefficients.detach()  # Q x B x T
+        cls = f"lmc_latent_dim:{'lazy' if case['lazy'] else 'eager'}:Q{Q}B{B}"
+        try:
+            if case["task_indices"]:
+                ti = torch.randint(0, T, (N_,), generator=g)
+                out = m(X, task_indices=ti)
+                mean = torch.einsum("qbn,qbn->bn", lm, A[..., ti])
+                C = torch.einsum("qbij,qbi,qbj->bij", lc, A[..., ti], A[..., ti])
+                ctx.close("lmc_mixing", out.mean, mean.reshape(out.mean.shape), (1e-7, 1e-7), cls=cls + ":ti:mean")
+                ctx.close("lmc_mixing", out.covariance_matrix, (C + jit * torch.eye(N_)).reshape(out.covariance_matrix.shape), (1e-7, 1e-7), cls=cls + ":ti:cov", alt=C.reshape(out.covariance_matrix.shape))
+            else:
+                out = m(X)
+                mean = torch.einsum("qbn,qbt->bnt", lm, A)
+                C4 = torch.einsum("qbij,qba,qbc->biajc", lc, A, A).reshape(B, N_ * T, N_ * T)
+                got = out.covariance_matrix
+                if not out._interleaved:
+                    got = got.reshape(B, T, N_, T, N_).permute(0, 2, 1, 4, 3).reshape(B, N_ * T, N_ * T)
+                ctx.close("lmc_mixing", out.mean, mean.reshape(out.mean.shape), (1e-7, 1e-7), cls=cls + ":mean")
+                ctx.close("lmc_mixing", got, (C4 + jit * torch.eye(N_ * T)).reshape(got.shape), (1e-7, 1e-7), cls=cls + ":cov", alt=C4.reshape(got.shape))
+        except Exception as e:
+            ctx.fail("lmc_mixing", f"LMC(latent_dim=-2), variational batch ({Q},{B}) raised {type(e).__name__}: {str(e)[:140]}", "raise", exc=type(e).__name__, lazy=case["lazy"])
     ctx.cell({k: v for k, v in case.items() if k != "seed"})
 
 
